@@ -39,6 +39,70 @@ pub fn walk<'tcx>(cx: &Cx<'tcx>) -> J {
             }
         }
     }
+    // direct abort capability of every foreign callee: Assert terminators and calls that never return
+    // (panic machinery) in the callee's own body, one level deep
+    let mut foreign: BTreeMap<String, DefId> = BTreeMap::new();
+    for ld in tcx.hir_body_owners() {
+        let d = ld.to_def_id();
+        if !matches!(tcx.def_kind(d), DefKind::Fn | DefKind::AssocFn | DefKind::Closure) || !tcx.is_mir_available(d) {
+            continue;
+        }
+        let body = tcx.optimized_mir(d);
+        let env = rustc_middle::ty::TypingEnv::post_analysis(tcx, d);
+        for bb in body.basic_blocks.iter() {
+            if let Some(t) = &bb.terminator {
+                if let TerminatorKind::Call { func: Operand::Constant(c), .. } = &t.kind {
+                    if let TyKind::FnDef(fd, fargs) = c.const_.ty().kind() {
+                        let mut target = *fd;
+                        if let Ok(Some(inst)) = rustc_middle::ty::Instance::try_resolve(tcx, env, *fd, fargs) {
+                            target = inst.def_id();
+                        }
+                        if !target.is_local() {
+                            foreign.insert(cx.path(target), target);
+                        }
+                        if !fd.is_local() {
+                            foreign.insert(cx.path(*fd), *fd);
+                        }
+                    }
+                }
+            }
+        }
+    }
+    let mut aborts = J::obj();
+    for (path, d) in foreign {
+        if !matches!(tcx.def_kind(d), DefKind::Fn | DefKind::AssocFn) || !tcx.is_mir_available(d) {
+            continue;
+        }
+        let body = tcx.optimized_mir(d);
+        let mut asserts: Vec<J> = Vec::new();
+        let mut never: Vec<J> = Vec::new();
+        for bb in body.basic_blocks.iter() {
+            if bb.is_cleanup {
+                continue;
+            }
+            if let Some(t) = &bb.terminator {
+                match &t.kind {
+                    TerminatorKind::Assert { msg, .. } => {
+                        let s = format!("{:?}", msg);
+                        asserts.push(J::s(s.chars().take(40).collect::<String>()));
+                    }
+                    TerminatorKind::Call { func: Operand::Constant(c), target: None, .. } => {
+                        if let TyKind::FnDef(fd, _) = c.const_.ty().kind() {
+                            never.push(J::s(cx.path(*fd)));
+                        }
+                    }
+                    _ => {}
+                }
+            }
+        }
+        if !asserts.is_empty() || !never.is_empty() {
+            let mut o = J::obj();
+            o.set("crate", J::s(tcx.crate_name(d.krate).to_string()));
+            o.set("asserts", J::Arr(asserts));
+            o.set("never_returns", J::Arr(never));
+            aborts.set(path, o);
+        }
+    }
     let mut out = Vec::new();
     for (_, tr) in traits {
         let provided: Vec<_> = tcx.provided_trait_methods(tr).collect();
@@ -70,5 +134,5 @@ pub fn walk<'tcx>(cx: &Cx<'tcx>) -> J {
             out.push(o);
         }
     }
-    J::obj().put("dep_overrides", J::Arr(out))
+    J::obj().put("dep_overrides", J::Arr(out)).put("callee_aborts", aborts)
 }
